@@ -432,3 +432,34 @@ def wrap180(d):
 
 def angdiff(a, b):
     return abs(wrap180(a - b))
+
+
+# --------------------------------------------------------------------------------------------
+# non-termination detector for library calls that contain an uncapped loop
+# --------------------------------------------------------------------------------------------
+class DidNotReturn(Exception):
+    """A monitored library call did not return within the budget (>= 1e5 times its normal duration)."""
+
+
+class deadline:
+    """`with core.deadline(30): lib_call()` -- raises DidNotReturn inside the call via SIGALRM (shards run their
+    workload in the main thread).  The budget is deliberately enormous compared with the microseconds a call takes,
+    so machine load cannot turn it into a false alarm; it only converts an endless loop into an observable event."""
+
+    def __init__(self, seconds=30):
+        self.seconds = seconds
+
+    def __enter__(self):
+        import signal
+
+        def handler(signum, frame):
+            raise DidNotReturn('no return after %ds' % self.seconds)
+        self.old = signal.signal(signal.SIGALRM, handler)
+        signal.alarm(self.seconds)
+        return self
+
+    def __exit__(self, *exc):
+        import signal
+        signal.alarm(0)
+        signal.signal(signal.SIGALRM, self.old)
+        return False
